@@ -118,6 +118,12 @@ class SimClock:
         self.armed_at = 0
         self.armed = False
         self.trace = []     # dates handed out since last reset_trace()
+        self.fail_next = None   # exception the next read raises
+        self.raised = None      # ... and the one that was raised
+
+    def fail(self, exc: BaseException):
+        self.fail_next = exc
+        self.raised = None
 
     def set(self, d: _dt.date):
         self.today = d
@@ -137,6 +143,9 @@ class SimClock:
     def __call__(self) -> _dt.date:
         k = self.reads - self.armed_at
         self.reads += 1
+        if self.fail_next is not None:
+            self.raised, self.fail_next = self.fail_next, None
+            raise self.raised
         if k in self.script:
             self.today = self.script.pop(k)
         self.trace.append(self.today)
